@@ -45,6 +45,9 @@ type vfExt struct {
 type vfFecBatch struct {
 	N    uint32     `json:"n"`
 	Pkts []vfFecPkt `json:"pkts"`
+	// Rebind (icpt level): before this batch the stream is bound again (no unbind): the new binding starts with an empty
+	// batch and protects exactly the packets written through it
+	Rebind bool `json:"rebind"`
 }
 
 type vfFecStream struct {
@@ -294,15 +297,19 @@ func vfFecRunIcpt(t *testing.T, sc *vfFecScript, out *vfWriter, concurrent bool)
 		info := &interceptor.StreamInfo{
 			SSRC: vfBE32(st.SSRC), SSRCForwardErrorCorrection: vfBE32(st.FecSSRC), PayloadTypeForwardErrorCorrection: st.FecPT,
 		}
-		writer := icpt.BindLocalStream(info, interceptor.RTPWriterFunc(
+		downW := interceptor.RTPWriterFunc(
 			func(hdr *rtp.Header, payload []byte, _ interceptor.Attributes) (int, error) {
 				down = append(down, vfFecRec(hdr, payload))
 
 				return len(payload), nil
-			}))
+			})
+		writer := icpt.BindLocalStream(info, downW)
 		for _, b := range st.Batches {
 			recs := make([]vfM, 0, len(b.Pkts))
 			down = nil
+			if b.Rebind {
+				writer = icpt.BindLocalStream(info, downW)
+			}
 			for j := range b.Pkts {
 				hdr, payload := vfFecBuild(t, vfBE32(st.SSRC), &b.Pkts[j])
 				recs = append(recs, vfFecRec(hdr, payload))
@@ -319,6 +326,7 @@ func vfFecRunIcpt(t *testing.T, sc *vfFecScript, out *vfWriter, concurrent bool)
 			events[idx] = append(events[idx], vfM{
 				"a": "batch", "kind": "icpt", "s": st.S, "ssrc": st.SSRC, "fecssrc": st.FecSSRC, "fecpt": int(st.FecPT),
 				"n": int(sc.N), "full": uint32(len(b.Pkts)) == sc.K, "media": recs, "out": got, "intact": true, //nolint:gosec
+				"rebind": b.Rebind,
 			})
 		}
 		icpt.UnbindLocalStream(info)
